@@ -3,7 +3,7 @@ from __future__ import annotations
 import ast
 from fractions import Fraction as F
 from ..api import A, spec
-from ..terms import Evaluator, Poly, Rec, Cond, Opq, Comp, Closure, Ref, tkey, paths_of, term_equal, has_opaque, compare_terms, as_poly
+from ..terms import _is_callable_term, Evaluator, Poly, Rec, Cond, Opq, Comp, Closure, Ref, tkey, paths_of, term_equal, has_opaque, compare_terms, as_poly
 from ..report import AnalysisError
 
 PF = 'SignalProcessing.periodic_functions'
@@ -89,7 +89,7 @@ def run(rep, prog, tier):
         # ---- time function
         selfw = Rec(wc.name, {'period': A('T'), 'amplitude': A('A'), 'phase': A('phi'), 'offset': A('o'), 'wavetype': wt}, (wm, wc))
         tf = ev.getattr(selfw, 'time_function', wm, 1)
-        val = ev.apply(tf, [A('t')], {}, wm, 1) if isinstance(tf, Closure) else None
+        val = ev.apply(tf, [A('t')], {}, wm, 1) if _is_callable_term(tf) else None
         env = {k: A(k) for k in ('t', 'T', 'phi', 'A', 'o', 'n')}
         if val is None:
             rep.ob('R08.pair', f'{wt}:time', None, f'time_function is not a function of t: {tf!r:.100}', site)
